@@ -47,6 +47,21 @@ TABLES (EXECUTED ENUMERATION on the tree under check - complete for the finite d
   metadata.roundtrip_names[...]                         column names and order, index names, MultiIndex columns
   metadata.allocated_is_predicted[D] / [D as index]     the frame pre_allocate builds from the handle's answers has the predicted dtype (order flag, label count)
   dtypes.override_is_honoured[D]                        handle opened with dtypes=<its natural dtypes>: same answer, same allocation
+WAVE-6 ADDITIONS (helpers / tables / defaults next to the above)
+  api.ParquetFile._dtypes null scan  (C17, C01, C07)   for ALL numbers of row groups: one arbitrary row group with the loop-carried flag havoc'd (F0):
+        dtypes.null_scan.starts_without_nulls_found / invariant_preserved (flag' <=> F0 or HAS(g)) / stops_early_only_when_nulls_were_found (a break
+        only with the flag set); HAS(g) = row group g non-empty and its chunk has no statistics or a non-zero null count.  By induction: the column is
+        announced nullable IFF such a row group EXISTS - appended row groups included
+  api._pre_allocate (+ nested get_type)  (C06, C17, C01)   pre_allocate.dtype_list_is_aligned_with_column_list (ONE pass over the column list itself: same
+        members, same order, no filter), partition_columns_appended_with_category_at_the_same_positions, columns_are_the_requested_columns_minus_index_in_
+        request_order, index_types_aligned_with_index_names, label_map_is_partitions_plus_requested_category_labels, get_type.*; executed:
+        pre_allocate.allocation_follows_the_requested_column_order[9 permuted / subset requests]
+  writer.infer_object_encoding  (C18, C01, C17, C02)   abstract element sequence, one arbitrary element, (t, s) havoc'd under (t is None <=> s == 0, s <= 10):
+        rejects_unknown_element_type, rejects_mixed_element_types, null_elements_are_skipped, typed_element_sets_or_confirms_the_encoding,
+        raises_only_for_an_unknown_or_a_second_element_type, stops_only_after_more_than_ten_typed_elements, result_is_..._None_only_without_typed_elements,
+        table_is_the_documented_type_table; executed infer_object_encoding.table[21 element kinds], make_metadata.refuses_uninferable_object_column[..]
+        refusal chain (all before the target is touched): find_type.object_encoding_is_inferred_from_the_column_itself, find_type.refusal_of_infer_object_
+        encoding_propagates, make_metadata[..].refusal_of_find_type_propagates, write.metadata_is_built_before_the_target_is_touched (+ [a refusal leaves it untouched])
 Every family runs on its own (guard): a source shape the script does not model makes THAT family `<family>.out_of_reach` (unknown), never a
 violation and never silence for the others.  Refutations on the unchanged tree = recorded findings (contracts/findings.jsonl, ids <prop>-P-...;
 regions in _KNOWN below; each replayed natively by replay(): NATIVE_* snippets run the real functions in a fresh interpreter).
